@@ -563,7 +563,10 @@ def cmd_digests(first, n):
 EXPECTED_PROBES = ['srm_flip', 'skin_asymptote_flip', 'revisit', 'near_then_far', 'far_then_near',
                    'obs_before_first_compute', 'same_argv_3x_in_process', 'history_contains_rc23',
                    'history_contains_raise', 'stale_file_longer_than_new', 'geo_all_ge2_not_all',
-                   'multi_media_far_field', 'sweep_negative_increment']
+                   'multi_media_far_field', 'sweep_negative_increment', 'round_frequencies',
+                   'int_typed_frequency', 'mid_model', 'model:fault_floor', 'model:round_floor',
+                   'model:tolerance_floor', 'model:regime_floor', 'model:near_miss_junction',
+                   'model:near_miss_ground_contact']
 
 
 def executable_lines(path):
@@ -630,7 +633,7 @@ def write_evidence(agg, tier, seed, wall, nviol, nknown, selftest):
             real=['mininec/mininec.py (all of it incl. main and argparse)', 'mininec/pulse.py', 'mininec/segment.py',
                   'mininec/taper.py', 'mininec/util.py', 'numpy', 'scipy'],
             stub=['wall clock (time module object, datetime class)', 'object hash assignment (__hash__ of Geobj, _Load, '
-                  'Medium, Pulse, Segment, Excitation)', 'disk (module-level open)', 'stdout/stderr (captured)',
+                  'Medium, Pulse, Segment, Excitation)', 'disk (fault-injecting module-level open, written through to a real private working / temporary / home directory per simulated machine)', 'stdout/stderr (captured)',
                   'process boundary (fork from a pristine template; real exec only in exec-level runs)',
                   'BLAS thread count (pinned to 1)']),
         selftest=selftest,
